@@ -108,6 +108,7 @@ def Skeleton.pinned : Skeleton where
   clMissingIsError := true
   clInvokeOutsideLock := true
   clLockIsMutex := true
+  clTableSites := 3
   clDeleteUnderLock := true
   clInsertUnderLock := true
   clIdFresh := true
@@ -151,6 +152,7 @@ def Skeleton.pinned : Skeleton where
   tagResErr := "err"
   tagMsgRequest := "request"
   tagMsgResponse := "response"
+  locksShared := true
   accesses := [
     { var := "Broadcaster.channels", site := "Close", write := false, locks := ["b.lock"], order := "" },
     { var := "Broadcaster.channels", site := "Close", write := true, locks := ["b.lock"], order := "" },
